@@ -137,7 +137,9 @@ def handle_path_command(args: argparse.Namespace) -> None:  # noqa: PLR0912, D10
         sys.exit(1)
 
     try:
-        data = json.load(args.file)
+        # JSON text is UTF-8 (or UTF-16/32), whatever the locale's encoding is. Read
+        # bytes from the standard input stream too, as we do for `--file`.
+        data = json.load(getattr(args.file, "buffer", args.file))
         values = path.find(data).values()
     except json.JSONDecodeError as err:
         if args.debug:
